@@ -1,0 +1,98 @@
+//go:build verif
+
+package knx
+
+import (
+	"container/list"
+
+	"github.com/vapourismo/knx-go/knx/cemi"
+	"github.com/vapourismo/knx-go/knx/knxnet"
+)
+
+// This file only exists in builds tagged "verif". It exposes constructors that take an already
+// existing socket, and the unexported group helpers, to an external verification harness.
+
+// VerifNewTunnel does what NewTunnel does after dialing: it connects through sock and starts the
+// serve goroutine.
+func VerifNewTunnel(sock knxnet.Socket, layer knxnet.TunnelLayer, config TunnelConfig) (*Tunnel, error) {
+	client := &Tunnel{
+		sock:    sock,
+		config:  checkTunnelConfig(config),
+		layer:   layer,
+		ack:     make(chan *knxnet.TunnelRes),
+		inbound: make(chan cemi.Message),
+		done:    make(chan struct{}),
+	}
+
+	err := client.requestConn()
+	if err != nil {
+		sock.Close()
+		return nil, err
+	}
+
+	client.wait.Add(1)
+	go client.serve()
+
+	return client, nil
+}
+
+// VerifNewGroupTunnel layers the group interface on top of VerifNewTunnel like NewGroupTunnel does.
+func VerifNewGroupTunnel(sock knxnet.Socket, config TunnelConfig) (gt GroupTunnel, err error) {
+	gt.Tunnel, err = VerifNewTunnel(sock, knxnet.TunnelLayerData, config)
+
+	if err == nil {
+		gt.inbound = make(chan GroupEvent)
+		go serveGroupInbound(gt.Tunnel.Inbound(), gt.inbound)
+	}
+
+	return
+}
+
+// VerifNewRouter does what NewRouter does after opening the multicast socket.
+func VerifNewRouter(sock knxnet.Socket, config RouterConfig) *Router {
+	config = checkRouterConfig(config)
+
+	r := &Router{
+		sock:          sock,
+		config:        config,
+		inbound:       make(chan cemi.Message),
+		retainer:      list.New(),
+		postSendPause: config.PostSendPauseDuration,
+	}
+
+	go r.serve()
+
+	return r
+}
+
+// VerifNewGroupRouter layers the group interface on top of VerifNewRouter like NewGroupRouter does.
+func VerifNewGroupRouter(sock knxnet.Socket, config RouterConfig) (gr GroupRouter) {
+	gr.Router = VerifNewRouter(sock, config)
+	gr.inbound = make(chan GroupEvent)
+	go serveGroupInbound(gr.Router.Inbound(), gr.inbound)
+
+	return
+}
+
+// VerifRetained returns the messages currently retained for resending, oldest first.
+func (router *Router) VerifRetained() []cemi.Message {
+	router.sendMu.Lock()
+	defer router.sendMu.Unlock()
+
+	var out []cemi.Message
+	for e := router.retainer.Front(); e != nil; e = e.Next() {
+		out = append(out, e.Value.(cemi.Message))
+	}
+
+	return out
+}
+
+// VerifBuildGroupOutbound exposes buildGroupOutbound.
+func VerifBuildGroupOutbound(event GroupEvent) cemi.LData {
+	return buildGroupOutbound(event)
+}
+
+// VerifServeGroupInbound exposes serveGroupInbound.
+func VerifServeGroupInbound(inbound <-chan cemi.Message, outbound chan<- GroupEvent) {
+	serveGroupInbound(inbound, outbound)
+}
